@@ -1864,7 +1864,21 @@ def trim_sql(self: Generator, expression: exp.Trim, default_trim_type: str = "")
 
 
 def concat_to_dpipe_sql(self: Generator, expression: exp.Concat) -> str:
-    return self.sql(reduce(lambda x, y: exp.DPipe(this=x, expression=y), expression.expressions))
+    # CONCAT's arguments and result are delimited by the call syntax, the || operator's are not:
+    # parenthesize compound operands (and the chain itself inside another operator) to keep the grouping
+    operands = [
+        exp.Paren(this=e) if isinstance(e, (exp.Binary, exp.Between, exp.In)) else e
+        for e in expression.expressions
+    ]
+    sql = self.sql(reduce(lambda x, y: exp.DPipe(this=x, expression=y), operands))
+    parent = expression.parent
+    if (
+        len(operands) > 1
+        and isinstance(parent, (exp.Binary, exp.Neg))
+        and not isinstance(parent, (exp.Predicate, exp.Connector))
+    ):
+        return f"({sql})"
+    return sql
 
 
 def concat_ws_to_dpipe_sql(self: Generator, expression: exp.ConcatWs) -> str:
